@@ -90,6 +90,13 @@ def key_call_args(key):
 
 def gen_keys(rng, n, debug_bias=0.15):
     keys = []
+    if rng.random() < 0.35:
+        v = rng.choice(['radio', 'submit', '"test"', "'x-y'", 'text'])
+        op = rng.choice(['=', '^=', '*=', '~=', '|=', '$='])
+        a = rng.choice(['type', 'type', 'TYPE', 'id', 'class'])
+        wrap = rng.choice(['%s', '%s', ':not(%s)', 'input%s', ':is(a, p)%s'])
+        for flag in rng.sample(['', ' i', ' s'], 2):
+            keys.append({'pattern': wrap % f'[{a}{op}{v}{flag}]', 'ns': None, 'custom': None, 'flags': 0})
     while len(keys) < n:
         r = rng.random()
         if keys and r < 0.35:
@@ -136,7 +143,9 @@ _NEAR = [('2n+1', '2n+2'), ('odd', 'even'), ('(2)', '(3)'), ('n+2', 'n+3'), ('-n
          ('"en-US"', '"en-GB"'), ('ltr', 'rtl'), ('[id', '[class'), ('^=', '$='), ('*=', '~='), ('|=', '='),
          (':not(', ':is('), (':is(', ':where('), (' > ', ' + '), (' ~ ', ' + '), (' i]', ' s]'), ('hello', 'world'),
          (':nth-child', ':nth-last-child'), (':nth-of-type', ':nth-last-of-type'), (':first-child', ':last-child'),
-         (':-soup-contains-own', ':-soup-contains'), ('of ', 'of *'), ('#d1', '#d2'), ('.a', '.b'), ('p', 'q')]
+         (':-soup-contains-own', ':-soup-contains'), ('of ', 'of *'), ('#d1', '#d2'), ('.a', '.b'), ('p', 'q'),
+         (' i]', ']'), (' s]', ']'), (' I]', ']'), ('"]', '" i]'), ("']", "' s]"), ('=radio]', '=radio i]'),
+         ('=submit]', '=submit s]'), ('=text]', '=text i]'), ('[type', '[TYPE'), ('[type', '[id'), ('|', '')]
 
 
 def near_miss(rng, pattern):
